@@ -42,6 +42,10 @@ structure Field where
   optional : Bool
   /-- `PagesRc` / `PageRc`: after loading, the target must carry this tag -/
   want : Option Nat
+  /-- element of a `Vec<MaybeRef<…>>` (e.g. `/DescendantFonts`): a target that is a *missing object* (free or
+      never defined) is read as absent in strict and tolerant mode alike (the repair of D38: a reference to
+      an undefined object is the null object); any other failure still fails the load -/
+  skipMissing : Bool := false
 deriving Repr, DecidableEq, Inhabited
 
 inductive Obj where
@@ -49,6 +53,8 @@ inductive Obj where
   | node (tag : Nat) (fields : List Field)
   /-- present, but `from_primitive` fails without loading anything (wrong primitive, missing key) -/
   | bad
+  /-- the number is free or not defined at all: `resolve` reports a missing object -/
+  | missing
 deriving Repr, Inhabited
 
 abbrev Graph := List Obj
@@ -58,6 +64,13 @@ def tagOf (g : Graph) (k : Nat) : Option Nat :=
   | some (.node t _) => some t
   | _ => none
 
+/-- the target is a missing object: the number is beyond the table, or free / undefined -/
+def isMissing (g : Graph) (k : Nat) : Bool :=
+  match g[k]? with
+  | none => true
+  | some .missing => true
+  | _ => false
+
 /-- one field, given the outcome of loading its target -/
 def fieldOutcome (g : Graph) (tolerant : Bool) (f : Field) (r : Out Unit) : Out Unit :=
   match r with
@@ -65,7 +78,7 @@ def fieldOutcome (g : Graph) (tolerant : Bool) (f : Field) (r : Out Unit) : Out 
     match f.want with
     | none => .ok ()
     | some t => if tagOf g f.target = some t then .ok () else (if f.optional && tolerant then .ok () else .err)
-  | .err => if f.optional && tolerant then .ok () else .err
+  | .err => if (f.optional && tolerant) || (f.skipMissing && isMissing g f.target) then .ok () else .err
   | .panic => .panic
   | .oof => .oof
 
@@ -88,6 +101,7 @@ def load (g : Graph) (tolerant : Bool) : Nat → List Nat → Nat → Out Unit
     match g[k]? with
     | none => .err
     | some .bad => .err
+    | some .missing => .err
     | some (.node _ fields) =>
       fields.foldl (fun acc f => seqOut acc (fun _ => fieldOutcome g tolerant f (load g tolerant fuel (k :: chain) f.target))) (.ok ())
 
